@@ -87,7 +87,8 @@ def run(ctx):
     ncorpus = report_corpus(ctx, nevrun, tmp, CORPUS, "C02")
     n = 3400 if ctx.tier == "quick" else 54000
     r = evaldiff.run_evaldiff(ctx, evaldiff.ALL_PROFILES, n, ctx.tier, variants=("o",), nevrun=nevrun,
-                              shrink_max=3 if ctx.tier == "quick" else 5)
+                              shrink_max=2 if ctx.tier == "quick" else 5,
+                              shrink_budget_s=45 if ctx.tier == "quick" else 90)
     report_common(ctx, r, "evaldiff")
     seen = set()
     for c in sorted(r["c02"], key=lambda c: (0 if "minimised" in c else 1, c["nodes"])):
